@@ -120,6 +120,17 @@ impl Gen {
                 }
             }
         }
+        // long strings (well beyond any block and beyond typical "hash only a prefix" thresholds),
+        // sharing everything but the last byte
+        if self.rng.chance(1, 3) {
+            let l = *self.rng.pick(&[129usize, 200, 300, 520]);
+            for v in 0..2 {
+                let s = filler(l, 4 + v * 7);
+                if !self.universe.contains(&s) {
+                    self.universe.push(s);
+                }
+            }
+        }
         // same first byte / same length families for the degenerate hashers
         for i in 0..4u8 {
             let s = vec![b'q', b'a' + i];
@@ -139,6 +150,17 @@ impl Gen {
             if i == 2 && !self.pool.is_empty() {
                 // equal content at a second address
                 s = self.pool[0].clone();
+            }
+            if i == 3 && self.pool[0].len() >= 2 {
+                // a proper prefix of pool string 0: the harness lets it share pool 0's start address
+                let full = String::from_utf8(self.pool[0].clone()).unwrap();
+                let mut cut = full.len() / 2;
+                while cut > 0 && !full.is_char_boundary(cut) {
+                    cut -= 1;
+                }
+                if cut > 0 {
+                    s = full.as_bytes()[..cut].to_vec();
+                }
             }
             self.pool.push(s);
         }
@@ -198,7 +220,8 @@ impl Gen {
         if si == self.slots.len() {
             self.slots.push(GSlot { kind: "gone", strs: Vec::new(), bytes, limit });
         }
-        let strings = if self.rng.chance(1, 2) { 0 } else { self.rng.range(1, 60) };
+        // mostly small tables (growth is exercised), now and then a heavily over-provisioned one
+        let strings = if self.rng.chance(1, 2) { 0 } else if self.rng.chance(1, 10) { self.rng.range(2000, 6000) } else { self.rng.range(1, 60) };
         self.slots[si] = GSlot { kind, strs: Vec::new(), bytes, limit };
         let l = limit.map(|l| l.to_string()).unwrap_or_else(|| "max".into());
         self.emit(format!("new {si} {kind} {strings} {bytes} {l}"));
@@ -651,6 +674,33 @@ impl Gen {
                 }
             }
         }
+        if self.profile == "eq" && kind == "rodeo" && self.pool.len() > 3 && self.rng.chance(1, 2) {
+            // two interners that differ in exactly one static string; the two statics may share
+            // their start address (prefix / whole) or their contents (same bytes, two addresses)
+            let s1 = self.new_slot("rodeo", bytes, None);
+            let common: Vec<Vec<u8>> = (0..self.rng.range(0, 3)).map(|_| self.fresh_str()).collect();
+            for x in &common {
+                for si in [s0, s1] {
+                    self.emit(format!("intern {si} {}", hex(x)));
+                    self.note_intern(si, x.clone());
+                }
+            }
+            let other = *self.rng.pick(&[3usize, 3, 2, 1]);
+            for (si, pi) in [(s0, 0usize), (s1, other)] {
+                self.emit(format!("internS {si} {pi}"));
+                let x = self.pool[pi].clone();
+                self.note_intern(si, x);
+            }
+            self.emit(format!("eq {s0} {s1}"));
+            self.emit(format!("eq {s1} {s0}"));
+            if self.rng.chance(1, 2) {
+                let op = *self.rng.pick(&["intoReader", "intoResolver"]);
+                self.emit(format!("{op} {s1}"));
+                self.slots[s1].kind = if op == "intoReader" { "reader" } else { "resolver" };
+                self.emit(format!("eq {s0} {s1}"));
+                self.emit(format!("eq {s1} {s0}"));
+            }
+        }
         for _ in 0..n_ops {
             self.gen_op();
         }
@@ -671,10 +721,21 @@ impl Gen {
         self.emit(format!("pool {}", pool.join(" ")));
         self.emit("new 0 rodeo 0 8 max".into());
         self.slots.push(GSlot { kind: "rodeo", strs: Vec::new(), bytes: 8, limit: None });
+        // long strings first: they have to survive every growth that follows
+        let longs: Vec<Vec<u8>> = [(150usize, 4u64), (150, 11), (300, 5), (1100, 6)].iter().map(|(l, v)| filler(*l, *v)).collect();
+        for x in &longs {
+            self.emit(format!("intern 0 {}", hex(x)));
+            self.note_intern(0, x.clone());
+        }
         for i in 0..n {
             let x = self.fresh_str();
             self.emit(format!("intern 0 {}", hex(&x)));
             self.note_intern(0, x);
+            if i % 16 == 9 {
+                let y = longs[i % longs.len()].clone();
+                self.emit(format!("get 0 {}", hex(&y)));
+                self.emit(format!("intern 0 {}", hex(&y)));
+            }
             if i % 7 == 3 {
                 let y = self.some_string(0);
                 self.emit(format!("get 0 {}", hex(&y)));
